@@ -130,9 +130,14 @@ class ActionContext(abc.ABC):
         """
         try:
             message = str(error)
+            if type(message) is str and len(message) > 0:
+                return message
         except BaseException:
-            message = None
-        return message or type(error).__name__
+            pass
+        try:
+            return str(type(error).__name__)
+        except BaseException:
+            return 'error'
 
     def process_capture_variable(self, name: str, variable: any, later: bool = False) \
             -> Tuple[WatchResult, Dict[str, Variable], str]:
